@@ -121,6 +121,47 @@ VW_NOINSTR ssize_t vw_read_hook(int fd, void* buf, size_t n) {
   return r;
 }
 
+/* ---------------------------------------------------------------- definite lost-sleeper check
+ * A snapshot taken without a scheduling point.  While sleep_spinlock is free every fiber parked
+ * in fiber_sleep (state WAITING) must be in the sleepers tree — the tree is the only way a wake
+ * pass can find it — and no node of the tree may be overdue (wake_time < timer_trigger_count):
+ * timer_trigger_count only grows under the lock, in a wake pass that removes everything due
+ * before it unlocks.  A fiber violating either can never be woken.  Returns how many of the
+ * given (not yet finished) fibers are lost; their log ids go to lost_ids. */
+VW_NOINSTR static void vw_collect(waiter_el_t* t, waiter_el_t** out, int* n, int max) {
+  while (t && *n < max) {
+    for (waiter_el_t* c = t; c && *n < max; c = c->next) out[(*n)++] = c;
+    vw_collect(t->left, out, n, max);
+    t = t->right;
+  }
+}
+
+VW_NOINSTR int vw_lost_check(fiber_t** fibers, const volatile int* done, int nfibers, int* lost_ids) {
+  if (sleep_spinlock.state.counters.ticket != sleep_spinlock.state.counters.users) return 0;
+  waiter_el_t* nodes[512];
+  int nn = 0;
+  vw_collect(sleepers, nodes, &nn, 512);
+  int lost = 0;
+  for (int i = 0; i < nfibers; i++) {
+    if (done[i] || fibers[i]->state != FIBER_STATE_WAITING) continue;
+    waiter_el_t* mine = NULL;
+    for (int k = 0; k < nn; k++)
+      if (nodes[k]->waiter == fibers[i]) mine = nodes[k];
+    if (!mine || mine->wake_time < timer_trigger_count) lost_ids[lost++] = *(int*)fibers[i]->context.tsan_fiber;
+  }
+  return lost;
+}
+
+/* number of timer ticks until the earliest sleeper is due (wake_time + 1 - timer_trigger_count),
+ * 0 if the lock is busy or nobody sleeps: lets the harness clock jump over long sleeps */
+VW_NOINSTR unsigned long long vw_ticks_to_next_deadline(void) {
+  if (sleep_spinlock.state.counters.ticket != sleep_spinlock.state.counters.users) return 0;
+  waiter_el_t* t = sleepers;
+  if (!t) return 0;
+  while (t->left) t = t->left;
+  return t->wake_time + 1 > timer_trigger_count ? t->wake_time + 1 - timer_trigger_count : 0;
+}
+
 /* ---------------------------------------------------------------- differential test of the pure tree functions
  * ops: i<wake_time> insert a fresh node (ids 1,2,3… in insertion order);
  *      r<t>         call waiter_remove_less_than(&tree, t) until it returns NULL; every
